@@ -17,6 +17,12 @@ pub fn timeline_impl(input: TokenStream) -> TokenStream {
         .into()
 }
 
+/// Verification hook: in-process entry to the `timeline!` expansion (the parser types are private).
+#[cfg(feature = "verif-hooks")]
+pub fn verif_expand_timeline(input: TokenStream2) -> Result<TokenStream2> {
+    expand_timeline(syn::parse2::<TimelineInput>(input)?)
+}
+
 fn expand_timeline(input: TimelineInput) -> Result<TokenStream2> {
     let TimelineInput {
         target_type,
